@@ -209,7 +209,27 @@ where
             #[cfg(feature = "tracing")]
             debug!(coalesce = %name, "Request executing as leader");
 
+            // If `inner.call` unwinds, no future exists yet whose Drop would unregister the key.
+            struct Unregister<'a, K: Hash + Eq + Clone, R: Clone, E: Clone> {
+                key: &'a K,
+                in_flight: &'a InFlight<K, R, E>,
+                armed: bool,
+            }
+            impl<K: Hash + Eq + Clone, R: Clone, E: Clone> Drop for Unregister<'_, K, R, E> {
+                fn drop(&mut self) {
+                    if self.armed {
+                        self.in_flight.cancel(self.key);
+                    }
+                }
+            }
+            let mut guard = Unregister {
+                key: &key,
+                in_flight: &self.in_flight,
+                armed: true,
+            };
             let future = self.inner.call(request);
+            guard.armed = false;
+            drop(guard);
             let in_flight = Arc::clone(&self.in_flight);
 
             CoalesceFuture::Leading {
